@@ -53,6 +53,9 @@ pub struct TJob {
     pub prologue: Vec<TOp>,
     pub threads: Vec<Vec<TOp>>,
     pub bound: usize,
+    /// Entries of this key weigh 0 (all others 1): `usage` no longer tells whether a shard is empty.
+    #[serde(default)]
+    pub zero_weight_key: Option<u64>,
 }
 
 #[derive(Debug, Clone)]
@@ -375,6 +378,10 @@ fn execute(job: &TJob, ctx: Arc<Mutex<Ctx>>, on_deadlock: sched::DeadlockHandler
             .with_shards(job.shards)
             .with_eviction_config(eviction_config(&job.algo))
             .with_hash_builder(VHash::default())
+            .with_weighter({
+                let z = job.zero_weight_key;
+                move |k: &u64, _: &u64| usize::from(Some(*k) != z)
+            })
             .with_event_listener(Arc::new(Listener {
                 sh: sh.clone(),
                 lru: job.algo.is_lru(),
@@ -413,10 +420,28 @@ fn execute(job: &TJob, ctx: Arc<Mutex<Ctx>>, on_deadlock: sched::DeadlockHandler
                 break;
             }
         }
+        // Final reads by the main thread (after every other operation): judged like any other lookup.
+        let mut keys: Vec<u64> = job
+            .prologue
+            .iter()
+            .chain(job.threads.iter().flatten())
+            .filter_map(|o| match o {
+                TOp::Ins { k } | TOp::Rm { k } | TOp::Get { k, .. } | TOp::Touch { k } | TOp::Fetch { k } | TOp::Contains { k } => Some(*k),
+                _ => None,
+            })
+            .collect();
+        keys.sort();
+        keys.dedup();
+        for k in keys {
+            let invoke = sh.clock.fetch_add(1, Ordering::SeqCst);
+            let r = cache.get(&k).map(|e| *e.value());
+            let resp = sh.clock.fetch_add(1, Ordering::SeqCst);
+            sh.log.lock().unwrap().push(Rec { thread: 0, invoke, resp, obs: Obs::Lookup { key: k, kind: "final-get", returned: r } });
+        }
         // quiescent epilogue: accounting must be consistent and within capacity
         let usage = cache.usage();
         let entries = cache.entries();
-        if usage != entries {
+        if usage != entries && job.zero_weight_key.is_none() {
             sh.complaints.lock().unwrap().push(("W.usage-eq".into(), format!("after all threads finished usage() = {usage} but entries() = {entries} (unit weights)")));
         }
         drop(cache);
@@ -536,6 +561,7 @@ fn jobs_c13(tier: Tier) -> Vec<TJob> {
                 prologue: pro,
                 threads,
                 bound: 2,
+                zero_weight_key: None,
             });
         }
     }
@@ -580,6 +606,7 @@ fn jobs_c18(tier: Tier) -> Vec<TJob> {
                 prologue: pro.clone(),
                 threads: threads.clone(),
                 bound: if tier == Tier::Thorough && !three { 3 } else { 2 },
+                zero_weight_key: None,
             });
         }
     }
@@ -600,6 +627,7 @@ fn jobs_c16(tier: Tier) -> Vec<TJob> {
                 prologue: pro,
                 threads,
                 bound: 2,
+                zero_weight_key: None,
             });
         }
     }
@@ -802,6 +830,7 @@ fn jobs(tier: Tier) -> Vec<TJob> {
                     capacity: *capacity,
                     prologue: pro,
                     threads,
+                    zero_weight_key: None,
                     bound: match tier {
                         Tier::Quick => 2,
                         Tier::Thorough => {
@@ -814,6 +843,17 @@ fn jobs(tier: Tier) -> Vec<TJob> {
                     },
                 });
             }
+        }
+    }
+    // Zero-weight entries of the contended key (usage does not tell whether a shard is empty): all pairs
+    // of single operations and the 2-vs-1 programs, FIFO [thorough: every algorithm], one shard.
+    let zalgos: Vec<Algo> = if tier == Tier::Quick { vec![Algo::Fifo] } else { Algo::defaults() };
+    for algo in zalgos {
+        for (pro, threads) in programs(tier) {
+            if threads.len() >= 3 {
+                continue;
+            }
+            v.push(TJob { algo, shards: 1, capacity: 2, prologue: pro, threads, bound: 2, zero_weight_key: Some(4) });
         }
     }
     v
